@@ -185,6 +185,22 @@ async fn cooperative(seed: u64, log: Arc<EventLog>, rep: Arc<Mutex<Report>>) {
                         if !good && !resp.is_empty() {
                             rep.lock().unwrap().fail("mux_isolation", format!("connect side of capability {cap} (stream uid {id}) got a response of {} bytes that is not the echo of its own header", resp.len()), json!({"seed": seed}));
                         }
+                        // end-of-stream is final: a reader kept alive after EOS and asked again must see EOS again, whatever the peer does
+                        // next on the same reusable stream id (its next incarnation is already on its way)
+                        if !resp.is_empty() && r.gen_bool(0.4) {
+                            for _ in 0..3 {
+                                for _ in 0..r.gen_range(1..20) {
+                                    tokio::task::yield_now().await;
+                                }
+                                let rctx = ctx.with_timeout(time::Duration::milliseconds(50));
+                                if let Ok(more) = st.read(&rctx, 64).await {
+                                    if !more.is_empty() {
+                                        rep.lock().unwrap().fail("mux_eos_not_final", format!("connect side of capability {cap} (stream uid {id}) read {} more bytes after it had seen end-of-stream", more.len()), json!({"seed": seed}));
+                                        break;
+                                    }
+                                }
+                            }
+                        }
                         gauges[&(cap, "connect")].dec();
                         drop(st);
                     }
